@@ -96,7 +96,7 @@ def gen(rng):
         if any(p == a or p.startswith(a + '/') or a.startswith(p + '/') for a in args):
             continue
         # neither the entry nor its directories may coincide with a directory / an entry made for an earlier argument
-        if p in made_dirs or any(d == a or d.startswith(a + '/') for a in args):
+        if p in made_dirs or any(d == a or d.startswith(a + '/') for a in args) or any(s_[1] == p for s_ in steps):
             continue
         if d != vol:
             steps.append(['d', d, 0o755])
